@@ -748,7 +748,9 @@ func c16Body(f c16Format, id int, tmpl *tabular.Cell, out *[]string, yield func(
 	t.AddRowItems(tag+"b\nｗｗ line2 "+strings.Repeat(tag, 20), strings.Repeat("\""+tag, 25)) // multi-line, wide, 60- and 75-byte fields
 	// a row obtained from the table (sized for its current 2 columns) and then given one cell more than that
 	yield("AppendNewRow + 3 cells")
-	t.AppendNewRow().Add(tabular.NewCell(tag + "p")).Add(tabular.NewCell(id)).Add(tabular.NewCell(tag + "-third"))
+	// its outer cells are the same two strings (of different display width) in every thread's table: whatever the
+	// library remembers about a string across tables is looked up again by the other threads
+	t.AppendNewRow().Add(tabular.NewCell("repeat-wide-ｗｗ")).Add(tabular.NewCell(10 * id)).Add(tabular.NewCell("rep-é"))
 	var cblog []string
 	yield("RegisterPropertyCallback")
 	if err := t.RegisterPropertyCallback(t, tabular.CB_AT_RENDER_PRECELL, tabular.CB_ON_CELL, &c16CB{&cblog, tag}); err != nil {
